@@ -260,6 +260,8 @@ class GeneratorProvider:
         if isinstance(generated_type, NoneType) or generated_type.accept(is_primitive_type):
             return
         self._generators[generated_type].add(generator)
+        # Cached answers were computed without the new generator.
+        self.clear_generator_cache()
 
     def get_all(self) -> dict[ProperType, OrderedSet[GenericAccessibleObject]]:
         """Get all generators."""
